@@ -329,6 +329,11 @@ func crashCheck(n uint64, priorIdx int, h []Op, acc *ev.Acc) {
 
 // ---------------------------------------------------------------- faults
 
+// every errno a kernel can plausibly answer a file system call with; none of them may be
+// swallowed (EINTR may be answered by re-issuing the call)
+var faultErrnos = []simunix.Errno{simunix.EIO, simunix.ENOSPC, simunix.EINVAL, simunix.EROFS, simunix.EBADF, simunix.EDQUOT, simunix.EFBIG,
+	simunix.ENOMEM, simunix.EAGAIN, simunix.EINTR, simunix.EACCES, simunix.EPERM, simunix.EOVERFLOW, simunix.ENXIO, simunix.ESPIPE, simunix.EBUSY}
+
 func faultCheck(n uint64, priorIdx int, acc *ev.Acc) {
 	// fixed history touching every call kind: open, W, R, ReadTo, Barrier, W, Barrier, Close
 	type step struct {
@@ -356,6 +361,15 @@ func faultCheck(n uint64, priorIdx int, acc *ev.Acc) {
 			p := libh.Try(func() { err = s.f(&d) })
 			if k.FaultHits > before {
 				// the failing call happened inside this operation
+				if p == "" && err == nil && f.Err == simunix.EINTR && faultAt < len(k.Trace) {
+					// an interrupted call may be re-issued: normal return is fine if the same call was made again and succeeded
+					failed := k.Trace[faultAt]
+					for _, c := range k.Trace[faultAt+1:] {
+						if c.Name == failed.Name && c.Err == 0 && fmt.Sprint(c.Args) == fmt.Sprint(failed.Args) {
+							return k.NCalls, "", true
+						}
+					}
+				}
 				if p == "" && err == nil {
 					return k.NCalls, fmt.Sprintf("%s returned normally although its system call #%d failed with %v", s.name, faultAt, f.Err), true
 				}
@@ -373,7 +387,7 @@ func faultCheck(n uint64, priorIdx int, acc *ev.Acc) {
 		return
 	}
 	for i := 0; i < total; i++ {
-		for _, e := range []simunix.Errno{simunix.EIO, simunix.ENOSPC} {
+		for _, e := range faultErrnos {
 			_, verdict, hit := run(i, simunix.Fault{Err: e})
 			acc.Add("faults_injected", 1)
 			if !hit {
